@@ -477,7 +477,14 @@ impl SignatureCache {
 
     /// Verify signature with caching
     pub fn verify_cached(&mut self, record: &PeerDHTRecord) -> Result<()> {
-        let hash = record.content_hash();
+        // Key the memo on everything verify_signature() looks at: the full signable encoding
+        // (every field, including user id and public key) and the signature bytes.
+        let message = record.create_signable_message()?;
+        let mut hasher = blake3::Hasher::new();
+        hasher.update(&(message.len() as u64).to_be_bytes());
+        hasher.update(&message);
+        hasher.update(record.signature.as_bytes());
+        let hash = hasher.finalize();
 
         // Check cache first
         if let Some(&result) = self.cache.get(&hash) {
